@@ -159,6 +159,7 @@ type caseT struct {
 	grants                                     []oidc.GrantType
 	hasKeys, hasSecret                         bool
 	routerIdx                                  int
+	mix                                        *mixT // part mixed-credentials: pres == "mixed"
 }
 
 func grantsOf(shape string) []oidc.GrantType {
@@ -233,6 +234,8 @@ func assertion(kind string) string {
 			"jwt-wrongaud":        mk("rsa2", kidCl, cid, cid, "https://other.example", now-10, now+3000),
 			"jwt-sub-differs":     mk("rsa2", kidCl, cid, "web", rig.Issuer, now-10, now+3000),
 		}
+		jwts["jwt-otherclient-valid"] = mk("rsa2", "jk1", otherCl, otherCl, rig.Issuer, now-10, now+3000) // a valid assertion of the registered client "jwt"
+		jwts["jwt-junk"] = "junk"
 		jwts["jwt-wrongtype"] = jwts["jwt-valid"]
 		jwts["jwt-notype"] = jwts["jwt-valid"]
 	})
@@ -452,6 +455,8 @@ func buildRequest(c caseT) *http.Request {
 	}
 	switch c.pres {
 	case "none":
+	case "mixed":
+		c.mix.apply(f, h)
 	case "id-only":
 		f.Set("client_id", cid)
 	case "basic-right":
@@ -548,7 +553,7 @@ func authClass(c caseT) (string, string) {
 	}
 	if isJWTPres(p) {
 		switch p {
-		case "jwt-foreign", "jwt-otherclient-key", "jwt-expired", "jwt-wrongaud", "jwt-sub-differs":
+		case "jwt-foreign", "jwt-otherclient-key", "jwt-expired", "jwt-wrongaud", "jwt-sub-differs", "jwt-junk":
 			return aBad, "invalid-assertion"
 		}
 		// a well-formed assertion signed with the key registered for cl (if any)
@@ -632,6 +637,12 @@ func authClass(c caseT) (string, string) {
 // verdict returns the expectation and the rule id for a case.
 func verdict(c caseT) (expect, string) {
 	a, why := authClass(c)
+	return verdictFor(c, a, why, a == aOpen && isJWTPres(c.pres))
+}
+
+// verdictFor: the clauses of the statement for a request whose credential(s) fall into auth class a (clause why);
+// openAtIntrospection: the class is open for a reason that also holds for a public client at introspection.
+func verdictFor(c caseT, a, why string, openAtIntrospection bool) (expect, string) {
 	refuse := func(rule string) (expect, string) { return mustRefuse, rule }
 
 	switch c.op {
@@ -693,7 +704,7 @@ func verdict(c caseT) (expect, string) {
 		}
 	case "introspect":
 		if c.method == "none" && a != aBad {
-			if a == aOpen && isJWTPres(c.pres) {
+			if openAtIntrospection {
 				return either, why
 			}
 			return refuse("public-client-cannot-authenticate")
@@ -996,6 +1007,8 @@ func TestCheck(t *testing.T) {
 		c.Cap("development run: only part " + devOnly)
 		if devOnly == "unimplemented-auth-method" {
 			runUnimplementedPart(t, c, full)
+		} else if devOnly == "mixed-credentials" {
+			runMixedPart(t, c)
 		} else {
 			runIdentityPart(t, c)
 		}
@@ -1015,6 +1028,7 @@ func TestCheck(t *testing.T) {
 	c.Extra("flag_deviation_bounds", ks)
 	runUnimplementedPart(t, c, full)
 	runIdentityPart(t, c)
+	runMixedPart(t, c)
 	c.Finish()
 }
 
